@@ -16,7 +16,8 @@ from props import C03_gen
 
 THEOREMS = ["C03_success", "C03_success_iff", "C03_failure", "C03_failure_restores", "C03_undo_apply", "C03_undo_apply_keys",
             "C03_purge_fallback", "C03_eod_atomic", "C03_others", "C03_before_eod", "C03_resetting_cleared", "C03_sync",
-            "C03_tables_stay_sets"]
+            "C03_tables_stay_sets", "C03_prefix_record_translated", "C03_update_pfx_translated", "C03_update_spki_translated",
+            "C03_undo_pfx_translated", "C03_undo_spki_translated"]
 
 FAULTS = ["dup_announce", "unknown_withdraw", "announce_withdraw_same", "bad_flags", "eod_session", "trunc_err", "trunc_close",
           "timeout", "stop", "prefix_len_big", "dup_announce", "announce_withdraw_same", "cr_session", "spurious_reset",
